@@ -3,8 +3,12 @@
 use super::read::{cls_io, cls_z, direct_decode, rand_content, rand_name};
 use super::{GenOut, OracleFailure, Stream};
 use crate::prng::Rng;
+use crate::strict::{strict_parse, StrictOpts, StrictView};
 use crate::util::*;
-use std::io::{Cursor, Write};
+use std::collections::BTreeMap;
+use std::io::{BufRead, BufReader, Cursor, Write};
+use std::sync::atomic::{AtomicU8, Ordering};
+use std::sync::Mutex;
 use zip::unstable::write::FileOptionsExt;
 use zip::write::FileOptions;
 
@@ -95,6 +99,7 @@ struct Cur {
     raw: bool,
 }
 
+#[derive(Clone)]
 pub struct RunOut {
     pub tokens: Vec<String>,
     pub fin: Option<Vec<u8>>,
@@ -152,11 +157,35 @@ impl SinkInfo for Cursor<Vec<u8>> {
     fn pos(&self) -> u64 { self.position() }
 }
 
+/// Results of `run_calls` by (hash, size) of its input: generator, adapter and oracles execute the same call
+/// list three to four times, and most of that time goes into setting up compressor contexts (bzip2 / zstd
+/// allocate megabytes per encoder).  The execution is deterministic (in-memory sink, fixed timestamps, zero
+/// ZipCrypto header), so the outcome of the first execution is reused; bounded by a byte budget.
+static RUN_MEMO: Mutex<Option<(std::collections::HashMap<(u64, usize), RunOut>, usize)>> = Mutex::new(None);
+const RUN_MEMO_BUDGET: usize = 192 << 20;
+
 /// Execute a call list on the real writer over an in-memory cursor.
 pub fn run_calls(calls: &[String], srcs: &[Vec<u8>]) -> RunOut {
+    let mut h: u64 = 0xcbf29ce484222325;
+    let mut n = 0usize;
+    let mut eat = |b: &[u8]| { for x in b { h ^= *x as u64; h = h.wrapping_mul(0x100000001b3); } h ^= 0xff; h = h.wrapping_mul(0x100000001b3); n += b.len() + 1; };
+    for c in calls { eat(c.as_bytes()); }
+    eat(b"|");
+    for s in srcs { eat(s); }
+    let key = (h, n);
+    if let Ok(g) = RUN_MEMO.lock() {
+        if let Some(r) = g.as_ref().and_then(|m| m.0.get(&key)) { return r.clone(); }
+    }
     let first: Vec<&str> = calls[0].split(',').collect();
     let sink = if first[0] == "ap" { Cursor::new(unhex(first[1]).unwrap_or_default()) } else { Cursor::new(Vec::new()) };
-    run_calls_sink(calls, srcs, sink)
+    let r = run_calls_sink(calls, srcs, sink);
+    if let Ok(mut g) = RUN_MEMO.lock() {
+        let m = g.get_or_insert_with(|| (std::collections::HashMap::new(), 0));
+        let cost = 256 + r.fin.as_ref().map(|f| f.len()).unwrap_or(0) + r.comp.iter().chain(r.zc.iter()).map(|s| s.len()).sum::<usize>()
+            + r.expect.iter().map(|e| e.0.len() + e.2.as_ref().map(|p| p.len()).unwrap_or(0)).sum::<usize>() + r.comment.len();
+        if m.1 + cost <= RUN_MEMO_BUDGET { m.1 += cost; m.0.insert(key, r.clone()); }
+    }
+    r
 }
 
 /// Execute a call list on the real writer over any sink.
@@ -235,6 +264,11 @@ pub fn run_calls_sink<S: std::io::Read + Write + std::io::Seek + SinkInfo>(calls
                         if res.is_ok() { close_cur(&mut cur, &mut out.comp, &mut out.zc); pending_expect = None; } else { note_cur(&cur, &mut out.comp, &mut out.zc); }
                         match res {
                             Ok(()) => {
+                                // an encrypting option encrypts the (empty) content: 12 header bytes are stored
+                                if let Some(pw) = &o.pw {
+                                    let mut c = Some(Cur { method: 0, level: 0, pw: Some(pw.clone()), chunks: vec![], in_extra: false, raw: false });
+                                    close_cur(&mut c, &mut out.comp, &mut out.zc);
+                                }
                                 let n2 = if nm.ends_with('/') || nm.ends_with('\\') { nm } else { format!("{nm}/") };
                                 out.expect.push((n2.into_bytes(), 0, Some(vec![]), Some(0o40000 | o.perm.map(|p| p & 0o777).unwrap_or(0o755))));
                                 "ok".into()
@@ -436,10 +470,223 @@ fn small_source(r: &mut Rng) -> Vec<u8> {
     b
 }
 
+// ---------------------------------------------------------------------------------------------
+// C02: inputs at the 16-bit limits of the format, aligned and encrypted entries
+
+/// A valid UTF-8 name of exactly `n` bytes (n >= 8).
+fn sized_name(n: usize, non_ascii: bool, r: &mut Rng) -> Vec<u8> {
+    let (head, tail): (&str, &str) = if non_ascii { ("\u{e9}t\u{e9}/", "\u{65e5}") } else { ("dir/", "z") };
+    let mut v = head.as_bytes().to_vec();
+    let alphabet = b"abcdefghijklmnopqrstuvwxyz0123456789._-";
+    while v.len() + tail.len() < n { v.push(alphabet[r.below(alphabet.len() as u64) as usize]); }
+    v.extend_from_slice(tail.as_bytes());
+    v
+}
+
+/// Well-formed extra data of exactly `total` bytes (total >= 4) with user-writable header ids.
+fn sized_extra(total: usize, r: &mut Rng) -> Vec<u8> {
+    let mut v = vec![];
+    let rec = |id: u16, n: usize, r: &mut Rng, v: &mut Vec<u8>| {
+        v.extend_from_slice(&id.to_le_bytes());
+        v.extend_from_slice(&(n as u16).to_le_bytes());
+        let fill = r.next() as u8;
+        v.extend(std::iter::repeat(fill & 0x3f).take(n));
+    };
+    if total - 4 <= 65535 { rec(0xcafe, total - 4, r, &mut v); } else { rec(0xcafe, 30000, r, &mut v); rec(0xbeef, total - 30000 - 8, r, &mut v); }
+    v
+}
+
+fn fixed_opts(method: u16, large: bool, pw: Option<&[u8]>) -> Opts {
+    Opts { method, level: None, dp: 0x5821, tp: 0x6000, perm: None, large, pw: pw.map(|p| p.to_vec()) }
+}
+
+/// One-entry source archive for raw copies (laid out by the independent builder).
+fn one_entry_source() -> Vec<u8> {
+    crate::mkzip::build(&crate::mkzip::Layout::new(vec![crate::mkzip::Entry::stored(b"src.txt", b"raw copy source")])).bytes
+}
+
+fn gen_c02_limits(seed: u64, tier: &str, g: &mut GenOut) {
+    let thorough = tier == "thorough";
+    let mut idx = 0u64;
+    let rng = |idx: &mut u64| { *idx += 1; super::rng_for(seed, "write.c02", *idx) };
+    let emit = |g: &mut GenOut, kind: &str, calls: Vec<String>, srcs: &[Vec<u8>]| g.push(&format!("c02.{kind}"), make_line(&calls, srcs));
+    let small = |r: &mut Rng| hex(&{ let n = r.range(1, 40) as usize; r.bytes(n) });
+
+    // ---- names of 65535 / 65536 / 70000 bytes through every entry-creating call
+    let kinds: &[&str] = if thorough { &["sf", "sx", "sa", "dir", "sym", "rc"] } else { &["sf"] };
+    for &len in &[65535usize, 65536, 70000] {
+        for non_ascii in [false, true] {
+            for &k in kinds {
+                let mut r = rng(&mut idx);
+                let nm = hex(&sized_name(len, non_ascii, &mut r));
+                let o = fixed_opts(*r.pick(&[0u16, 8]), r.chance(1, 3), None);
+                let mut calls = vec!["new".to_string()];
+                let mut srcs = vec![];
+                if r.chance(1, 2) { calls.push(format!("sf,{},{}", hex(b"first"), fixed_opts(0, false, None).tok())); calls.push(format!("w,{}", small(&mut r))); }
+                match k {
+                    "sf" => { calls.push(format!("sf,{nm},{}", o.tok())); calls.push(format!("w,{}", small(&mut r))); }
+                    "sx" => { calls.push(format!("sx,{nm},{}", o.tok())); calls.push(format!("w,{}", hex(&sized_extra(12, &mut r)))); calls.push("ex".into()); calls.push(format!("w,{}", small(&mut r))); }
+                    "sa" => { calls.push(format!("sa,{nm},{},{}", o.tok(), r.pick(&[4u32, 64, 4096]))); calls.push(format!("w,{}", small(&mut r))); }
+                    "dir" => calls.push(format!("dir,{nm},{}", o.tok())),
+                    "sym" => calls.push(format!("sym,{nm},{},{}", hex(b"target/path"), o.tok())),
+                    _ => { srcs.push(one_entry_source()); calls.push(format!("rc,0,0,{nm}")); }
+                }
+                // the archive goes on after the (possibly refused) call
+                calls.push(format!("sf,{},{}", hex(b"last"), fixed_opts(8, false, None).tok()));
+                calls.push(format!("w,{}", small(&mut r)));
+                calls.push("fin".into());
+                emit(g, &format!("name.{len}"), calls, &srcs);
+            }
+        }
+    }
+    // add_directory appends '/': 65534 + 1 fits, 65535 + 1 does not, 65535 ending in '/' fits
+    {
+        let mut r = rng(&mut idx);
+        for (len, slash) in [(65534usize, false), (65535, false), (65535, true)] {
+            let mut nm = sized_name(len, false, &mut r);
+            if slash { let k = nm.len() - 1; nm[k] = b'/'; }
+            emit(g, "name.dir", vec!["new".into(), format!("dir,{},{}", hex(&nm), fixed_opts(0, false, None).tok()), "fin".into()], &[]);
+        }
+        // quick tier: one line each for the other calls at the limit and just beyond
+        if !thorough {
+            for (k, len) in [("sym", 65535usize), ("sym", 65536), ("sx", 65535), ("sa", 65535), ("rc", 65535), ("rc", 65536)] {
+                let nm = hex(&sized_name(len, k == "sym", &mut r));
+                let o = fixed_opts(0, false, None);
+                let (calls, srcs) = match k {
+                    "sym" => (vec!["new".into(), format!("sym,{nm},{},{}", hex(b"t"), o.tok()), "fin".into()], vec![]),
+                    "sx" => (vec!["new".into(), format!("sx,{nm},{}", o.tok()), format!("w,{}", hex(&sized_extra(9, &mut r))), "ex".into(), format!("w,{}", small(&mut r)), "fin".into()], vec![]),
+                    "sa" => (vec!["new".into(), format!("sa,{nm},{},512", o.tok()), format!("w,{}", small(&mut r)), "fin".into()], vec![]),
+                    _ => (vec!["new".into(), format!("rc,0,0,{nm}"), "fin".into()], vec![one_entry_source()]),
+                };
+                emit(g, &format!("name.{k}"), calls, &srcs);
+            }
+        }
+    }
+    // ---- archive comments of 65535 / 65536 / 70000 bytes
+    for &len in &[65535usize, 65536, 70000] {
+        for with_entry in [false, true] {
+            let mut r = rng(&mut idx);
+            // no 'P' (0x50): the comment cannot embed a record signature
+            let c: Vec<u8> = (0..len).map(|_| { let b = r.next() as u8; if b == 0x50 { 0x51 } else { b } }).collect();
+            let mut calls = vec!["new".to_string()];
+            if with_entry { calls.push(format!("sf,{},{}", hex(b"e"), fixed_opts(8, false, None).tok())); calls.push(format!("w,{}", small(&mut r))); }
+            calls.push(format!("c,{}", hex(&c)));
+            calls.push("fin".into());
+            if len > 65535 && with_entry {
+                // a refused finish leaves the writer usable: shorten the comment and finish again
+                calls.push(format!("c,{}", hex(&c[..r.range(0, 65535) as usize])));
+                calls.push("fin".into());
+            }
+            emit(g, &format!("comment.{len}"), calls, &[]);
+        }
+    }
+    {
+        // appending with a maximal comment
+        let mut r = rng(&mut idx);
+        let base = small_source(&mut r);
+        emit(g, "comment.append", vec![format!("ap,{}", hex(&base)), format!("c,{}", hex(&vec![b'c'; 65535])), "fin".into()], &[]);
+        emit(g, "comment.append", vec![format!("ap,{}", hex(&base)), format!("c,{}", hex(&vec![b'c'; 65536])), "fin".into()], &[]);
+    }
+    // ---- extra data through start_file_with_extra_data + write, with and without the 20-byte local ZIP64 record
+    let totals: Vec<usize> = if thorough { (65508..=65540).collect() } else { vec![65514, 65515, 65516, 65535, 65536] };
+    for &total in &totals {
+        for large in [false, true] {
+            if !thorough && ((large && total == 65536) || (!large && total == 65514)) { continue; }
+            let mut r = rng(&mut idx);
+            let x = sized_extra(total, &mut r);
+            let mut calls = vec!["new".to_string(), format!("sx,{},{}", hex(b"x.bin"), fixed_opts(*r.pick(&[0u16, 8]), large, None).tok())];
+            if r.chance(1, 2) { let cut = r.range(1, total as u64 - 1) as usize; calls.push(format!("w,{}", hex(&x[..cut]))); calls.push(format!("w,{}", hex(&x[cut..]))); } else { calls.push(format!("w,{}", hex(&x))); }
+            calls.push("ex".into());
+            calls.push(format!("w,{}", small(&mut r)));
+            if r.chance(1, 2) { calls.push(format!("dir,{},{}", hex(b"after/"), fixed_opts(0, false, None).tok())); }
+            calls.push("fin".into());
+            emit(g, if large { "extra.large" } else { "extra" }, calls, &[]);
+        }
+    }
+    // ---- central-only extra data (end_local_start_central_extra_data) near 65535 - 28 and at the limit
+    let ctotals: Vec<(usize, bool)> = if thorough {
+        let mut v = vec![];
+        for t in (65500..=65520).chain(65530..=65540) { v.push((t, false)); v.push((t, true)); }
+        v
+    } else { vec![(65507, false), (65508, false), (65535, false), (65536, false), (65515, true), (65516, true)] };
+    for (total, large) in ctotals {
+        let mut r = rng(&mut idx);
+        // a refused central part leaves the entry open with its compressor active: when the writer is then dropped
+        // flate2 / bzip2 flush their stream from their own Drop (Model.dropInner; the codec row of the open entry is
+        // recorded by close_cur at the end of run_calls_sink)
+        let method = *r.pick(&[0u16, 8, 12, 93]);
+        let mut calls = vec!["new".to_string(), format!("sx,{},{}", hex(b"c.bin"), fixed_opts(method, large, None).tok())];
+        if r.chance(1, 2) { calls.push(format!("w,{}", hex(&sized_extra(r.range(4, 40) as usize, &mut r)))); }
+        calls.push("el".into());
+        calls.push(format!("w,{}", hex(&sized_extra(total, &mut r))));
+        calls.push("ex".into());
+        calls.push(format!("w,{}", small(&mut r)));
+        calls.push("fin".into());
+        emit(g, if large { "central-extra.large" } else { "central-extra" }, calls, &[]);
+    }
+    // ---- aligned entries: padding records up to the size limit of the extra field
+    {
+        // the second entry's preliminary data start is 62 + C (+20 with large_file); alignment 65535 makes the
+        // padding record 4 + (65535 - (start + 4) % 65535) % 65535 bytes long.  Local extra field = that record
+        // (+20): exactly 65535 bytes at C = 65473 and 65536 at C = 65472, with and without large_file; C = 65469
+        // needs an empty padding record
+        let cs: Vec<usize> = if thorough { (65440..=65480).collect() } else { vec![65469, 65472, 65473] };
+        for &c in &cs {
+            for large in [false, true] {
+                if !thorough && large && c == 65469 { continue; }
+                let mut r = rng(&mut idx);
+                let calls = vec!["new".to_string(), format!("sf,{},{}", hex(b"a"), fixed_opts(0, false, None).tok()), format!("w,{}", hex(&vec![0x5au8; c])),
+                    format!("sa,{},{},65535", hex(b"b"), fixed_opts(*r.pick(&[0u16, 8]), large, None).tok()), format!("w,{}", small(&mut r)), "fin".into()];
+                emit(g, "aligned.limit", calls, &[]);
+            }
+        }
+        let n = if thorough { 200 } else { 8 };
+        for _ in 0..n {
+            let mut r = rng(&mut idx);
+            let mut calls = vec!["new".to_string()];
+            for _ in 0..r.range(1, 3) {
+                let al = *r.pick(&[2u32, 4, 8, 64, 512, 4096, 32768, 65535, 3, 1000]);
+                let mut o = rand_opts(&mut r, false);
+                o.pw = None;
+                o.large = r.chance(1, 2);
+                calls.push(format!("sa,{},{},{}", hex(&rand_utf8_name(&mut r)), o.tok(), al));
+                for _ in 0..r.below(3) { calls.push(format!("w,{}", hex(&rand_content(&mut r)))); }
+            }
+            calls.push("fin".into());
+            emit(g, "aligned", calls, &[]);
+        }
+    }
+    // ---- ZipCrypto-encrypted entries: every method, empty / chunked content, directories and symlinks
+    {
+        let n = if thorough { 300 } else { 10 };
+        for i in 0..n {
+            let mut r = rng(&mut idx);
+            let mut calls = vec!["new".to_string()];
+            for j in 0..r.range(1, 3) {
+                let pw = { let n = r.range(0, 12) as usize; r.bytes(n) };
+                let mut o = rand_opts(&mut r, false);
+                o.method = [0u16, 8, 12, 93][((i + j) % 4) as usize];
+                if o.method == 0 { o.level = None; }
+                o.pw = Some(pw);
+                let nm = hex(&rand_utf8_name(&mut r));
+                match r.below(6) {
+                    0 => { o.method = 0; o.level = None; calls.push(format!("dir,{nm},{}", o.tok())); }
+                    1 => { o.method = 0; o.level = None; calls.push(format!("sym,{nm},{},{}", hex(b"target/path"), o.tok())); }
+                    _ => { calls.push(format!("sf,{nm},{}", o.tok())); for _ in 0..r.below(4) { calls.push(format!("w,{}", hex(&rand_content(&mut r)))); } }
+                }
+            }
+            if r.chance(1, 3) { calls.push(format!("sf,{},{}", hex(b"plain"), rand_opts(&mut r, false).tok())); calls.push(format!("w,{}", hex(&rand_content(&mut r)))); }
+            calls.push("fin".into());
+            emit(g, "encrypted", calls, &[]);
+        }
+    }
+}
+
 impl Stream for WriteStream {
     fn name(&self) -> &'static str { self.0 }
 
     fn gen(&self, seed: u64, tier: &str) -> GenOut {
+        C02_MODE.store(if tier == "thorough" { 2 } else { 1 }, Ordering::Relaxed);
         if self.0 == "append" { return gen_append(seed, tier); }
         if self.0 == "rawcopy" { return gen_rawcopy(seed, tier); }
         let mut g = GenOut::default();
@@ -455,6 +702,7 @@ impl Stream for WriteStream {
             let kind = if base.is_some() { "append" } else if misuse { "misuse" } else { "valid" };
             g.push(kind, make_line(&calls, &srcs));
         }
+        gen_c02_limits(seed, tier, &mut g);
         g
     }
 
@@ -491,6 +739,8 @@ impl Stream for WriteStream {
         if !ro.finished_ok { return f; }
         // calls after a successful finish are misuse on a closed writer; the archive is what finish returned
         let bytes = match &ro.fin { Some(b) => b.clone(), None => return f };
+        // C02: the independent strict parser (and CPython on a sample) judge the same bytes
+        let c02 = c02_checks(line, &calls, &srcs, &ro, &bytes, 0, &ro.comment);
         let r = catch(move || {
             let mut fails = vec![];
             let mut ar = match zip::ZipArchive::new(Cursor::new(bytes)) {
@@ -531,14 +781,265 @@ impl Stream for WriteStream {
             Ok(v) => for w in v { f.push(OracleFailure { what: w }); },
             Err(_) => f.push(OracleFailure { what: "panic while reading back the produced archive".into() }),
         }
+        f.extend(c02);
         f
+    }
+
+    fn stats(&self) -> Vec<(String, u64)> {
+        C02_STATS.lock().map(|m| m.iter().map(|(k, v)| (k.clone(), *v)).collect()).unwrap_or_default()
     }
 }
 
 /// Was the i-th successfully created entry started with a password? (approximation used only to skip
 /// the plaintext comparison of encrypted payloads in the oracle: any password in the line disables it)
 fn line_entry_encrypted(calls: &[String], _i: usize) -> bool {
-    calls.iter().any(|c| (c.starts_with("sf,") || c.starts_with("sym,")) && !c.ends_with(",n") && c.split(',').last().map(|p| p != "n").unwrap_or(false))
+    calls.iter().any(|c| (c.starts_with("sf,") || c.starts_with("sym,") || c.starts_with("dir,")) && !c.ends_with(",n") && c.split(',').last().map(|p| p != "n").unwrap_or(false))
+}
+
+// ---------------------------------------------------------------------------------------------
+// C02: validity of whatever a successful finish() produced
+
+static C02_STATS: Mutex<BTreeMap<String, u64>> = Mutex::new(BTreeMap::new());
+/// 0 = replay (`zvh run`): every eligible archive goes to CPython; 1 = quick: a 1/16 sample; 2 = thorough:
+/// every small archive
+static C02_MODE: AtomicU8 = AtomicU8::new(0);
+
+fn c02_count(k: &str, n: u64) {
+    if let Ok(mut m) = C02_STATS.lock() { *m.entry(format!("c02.{k}")).or_insert(0) += n; }
+}
+
+fn fnv(s: &str) -> u64 {
+    let mut h: u64 = 0xcbf29ce484222325;
+    for b in s.bytes() { h ^= b as u64; h = h.wrapping_mul(0x100000001b3); }
+    h
+}
+
+const PY_SERVER: &str = r#"
+import sys, io, zipfile, binascii
+try:
+    import bz2
+    print("ready bz2", flush=True)
+except Exception:
+    print("ready nobz2", flush=True)
+for line in sys.stdin:
+    line = line.strip()
+    if not line:
+        continue
+    try:
+        data = b"" if line == "-" else binascii.unhexlify(line)
+        z = zipfile.ZipFile(io.BytesIO(data))
+    except Exception as e:
+        print("open-failed " + type(e).__name__ + " " + str(e).replace("\n", " "), flush=True)
+        continue
+    out = ["n=%d" % len(z.infolist()), "comment=" + (binascii.hexlify(z.comment).decode() or "-")]
+    try:
+        for zi in z.infolist():
+            nm = zi.orig_filename.encode("utf-8" if zi.flag_bits & 0x800 else "cp437")
+            out.append("%d:%d:%d:%d:%d:%s" % (zi.header_offset, zi.CRC, zi.compress_size, zi.file_size, zi.compress_type, binascii.hexlify(nm).decode() or "-"))
+        out.append("test=" + str(z.testzip()))
+    except Exception as e:
+        out.append("test=EXC " + type(e).__name__ + " " + str(e).replace("\n", " "))
+    print(" ".join(out), flush=True)
+"#;
+
+struct PyServer {
+    _child: std::process::Child,
+    stdin: std::process::ChildStdin,
+    stdout: BufReader<std::process::ChildStdout>,
+    bz2: bool,
+}
+
+/// `None` = not tried yet, `Some(None)` = python3 is not available (or died)
+static PY: Mutex<Option<Option<PyServer>>> = Mutex::new(None);
+
+fn py_spawn() -> Option<PyServer> {
+    use std::process::{Command, Stdio};
+    let mut ch = Command::new("python3").arg("-u").arg("-c").arg(PY_SERVER).stdin(Stdio::piped()).stdout(Stdio::piped()).stderr(Stdio::null()).spawn().ok()?;
+    let stdin = ch.stdin.take()?;
+    let mut stdout = BufReader::new(ch.stdout.take()?);
+    let mut hello = String::new();
+    stdout.read_line(&mut hello).ok()?;
+    if !hello.starts_with("ready") { return None; }
+    Some(PyServer { _child: ch, stdin, stdout, bz2: hello.trim() == "ready bz2" })
+}
+
+/// CPython's view of `bytes` (one long-lived interpreter serves the whole run); `None` when python3 is missing.
+fn cpython_view(bytes: &[u8], needs_bz2: bool) -> Option<String> {
+    let mut g = PY.lock().ok()?;
+    if g.is_none() { *g = Some(py_spawn()); }
+    let srv = g.as_mut()?.as_mut()?;
+    if needs_bz2 && !srv.bz2 { return None; }
+    let mut ok = srv.stdin.write_all(hex(bytes).as_bytes()).is_ok() && srv.stdin.write_all(b"\n").is_ok() && srv.stdin.flush().is_ok();
+    let mut resp = String::new();
+    if ok { ok = srv.stdout.read_line(&mut resp).map(|n| n > 0).unwrap_or(false); }
+    if !ok { *g = Some(None); return None; }
+    Some(resp.trim().to_string())
+}
+
+/// Over-long inputs (name / comment / extra data of 65536 bytes or more) that were ACCEPTED on the way to the
+/// first successful finish().  The format has 16-bit length fields: such a call, or finish(), must fail.
+fn c02_length_audit(calls: &[String], tokens: &[String]) -> Vec<String> {
+    let mut found = vec![];
+    let blen = |h: &str| String::from_utf8_lossy(&unhex(h).unwrap_or_default()).len();
+    let (mut in_extra, mut central_only, mut large, mut extra_len, mut comment_len) = (false, false, false, 0usize, 0usize);
+    for (call, tok) in calls.iter().zip(tokens.iter()).skip(1) {
+        let x: Vec<&str> = call.split(',').collect();
+        let ok = tok == "ok" || tok.starts_with("ok=");
+        let check_extra = |found: &mut Vec<String>, central_only: bool, extra_len: usize, large: bool, by: &str| {
+            let total = extra_len + if large && !central_only { 20 } else { 0 };
+            if total >= 65536 { found.push(format!("{by} accepted {} extra data of {total} bytes (ZIP64 record included)", if central_only { "central" } else { "local" })); }
+        };
+        match x[0] {
+            "sf" | "sx" | "sa" | "dir" | "sym" if x.len() >= 9 => {
+                let mut n = blen(x[1]);
+                if x[0] == "dir" { let nm = unhex(x[1]).unwrap_or_default(); if !matches!(nm.last(), Some(b'/') | Some(b'\\')) { n += 1; } }
+                if ok && n >= 65536 { found.push(format!("{} accepted a name of {n} bytes", x[0])); }
+                if ok {
+                    if in_extra { check_extra(&mut found, central_only, extra_len, large, "the implicit end_extra_data"); }
+                    in_extra = x[0] == "sx"; central_only = false; extra_len = 0;
+                    large = x[if x[0] == "sym" { 8 } else { 7 }] == "1";
+                }
+            }
+            "rc" if x.len() >= 4 => {
+                if ok && x[3] != "same" && blen(x[3]) >= 65536 { found.push(format!("raw_copy_file_rename accepted a name of {} bytes", blen(x[3]))); }
+                if ok { if in_extra { check_extra(&mut found, central_only, extra_len, large, "the implicit end_extra_data"); } in_extra = false; central_only = false; extra_len = 0; large = false; }
+            }
+            "w" if x.len() >= 2 => { if ok && in_extra { extra_len += unhex(x[1]).map(|b| b.len()).unwrap_or(0); } }
+            "el" => { if ok { check_extra(&mut found, central_only, extra_len, large, "end_local_start_central_extra_data"); extra_len = 0; central_only = true; in_extra = true; } }
+            "ex" => { if ok { check_extra(&mut found, central_only, extra_len, large, "end_extra_data"); in_extra = false; central_only = false; } }
+            "c" if x.len() >= 2 => comment_len = unhex(x[1]).map(|b| b.len()).unwrap_or(0),
+            "fin" => {
+                if ok {
+                    if in_extra { check_extra(&mut found, central_only, extra_len, large, "the implicit end_extra_data"); }
+                    if comment_len >= 65536 { found.push(format!("finish() accepted an archive comment of {comment_len} bytes")); }
+                    return found;
+                }
+            }
+            _ => {}
+        }
+    }
+    vec![]
+}
+
+/// The checks of property C02 on the bytes `live` that a successful finish() left: strict parser (hard errors ->
+/// `C02 strict:`), its view against what the calls wrote, the 16-bit length rule (`C02 length:`), CPython on a
+/// deterministic sample (`C02 cpython:`).  `nbase` entries were inherited from the base archive (append).
+fn c02_checks(key: &str, calls: &[String], srcs: &[Vec<u8>], ro: &RunOut, live: &[u8], nbase: usize, want_comment: &[u8]) -> Vec<OracleFailure> {
+    let mut out: Vec<String> = vec![];
+    for m in c02_length_audit(calls, &ro.tokens) { out.push(format!("C02 length: {m}, and finish() reported success")); }
+    // raw copies: (index among the created entries, source archive, source entry)
+    let mut rcs: Vec<(usize, usize, usize)> = vec![];
+    {
+        let mut k = 0usize;
+        for (call, tok) in calls.iter().zip(ro.tokens.iter()).skip(1) {
+            let x: Vec<&str> = call.split(',').collect();
+            let ok = tok == "ok" || tok.starts_with("ok=");
+            if x[0] == "rc" && ok && x.len() >= 3 { rcs.push((k, x[1].parse().unwrap_or(0), x[2].parse().unwrap_or(0))); }
+            if matches!(x[0], "sf" | "sx" | "sa" | "dir" | "sym" | "rc") && ok { k += 1; }
+            if x[0] == "fin" && ok { break; }
+        }
+    }
+    let mut opts = StrictOpts { utf8_from: nbase, ..Default::default() };
+    let mut rep = strict_parse(live, &opts);
+    if !rep.errors.is_empty() && !rcs.is_empty() {
+        // "metadata is copied and not checked": a raw copy of a source entry that does not read back through its
+        // own archive (wrong CRC, encrypted) is as inconsistent as its source; only its structure is judged
+        use std::io::Read;
+        for (k, si, ei) in &rcs {
+            let good = catch({ let b = srcs.get(*si).cloned().unwrap_or_default(); let ei = *ei; move || {
+                let mut a = match zip::ZipArchive::new(Cursor::new(b)) { Ok(a) => a, Err(_) => return false };
+                let r = match a.by_index(ei) { Ok(mut f) => { let mut v = vec![]; f.read_to_end(&mut v).is_ok() } Err(_) => false };
+                r
+            } }).unwrap_or(false);
+            if !good { opts.skip_data.push(nbase + k); c02_count("rawcopy.source-inconsistent", 1); }
+        }
+        if !opts.skip_data.is_empty() { rep = strict_parse(live, &opts); }
+    }
+    c02_count("strict.archives", 1);
+    // K-A2 (DESIGN section 9, K-A name part): new_append re-emits the central records of the base from decoded
+    // metadata; a CP437 name with a byte >= 0x80 comes back as UTF-8 bytes with bit 11 set while the untouched local
+    // header keeps the CP437 bytes and a clear bit 11.  Own signature (like D14 / K-D); every other disagreement
+    // of an inherited entry is an ordinary C02 failure (the data-descriptor flag was D17, fixed in b01619d)
+    let ka2: Vec<usize> = rep.view.as_ref().map(|v| v.entries.iter().enumerate().filter(|(i, e)| {
+        *i < nbase && e.local_name != e.name && e.local_name.iter().any(|c| *c >= 0x80) && e.local_flags & 0x0800 == 0 && e.flags & 0x0800 != 0
+            && String::from_utf8_lossy(&e.name).chars().count() == e.local_name.len()
+    }).map(|(i, _)| i).collect()).unwrap_or_default();
+    let mut other_errors = 0;
+    for e in &rep.errors {
+        let idx = e.strip_prefix("entry ").and_then(|t| t.split(':').next()).and_then(|n| n.parse::<usize>().ok());
+        let v = rep.view.as_ref();
+        let is_ka2 = idx.map(|i| ka2.contains(&i) && (e.contains(": local name ") || (e.contains(": local flags ") && v.map(|v| v.entries[i].local_flags ^ v.entries[i].flags == 0x0800).unwrap_or(false)))).unwrap_or(false);
+        if is_ka2 {
+            out.push(format!("K-A2 append-reencodes-name: the central record rewritten for an inherited entry carries the CP437 name re-encoded as UTF-8 (bit 11 set), its untouched local header the original bytes (C02 strict: {e})"));
+            c02_count("strict.K-A2", 1);
+        } else {
+            out.push(format!("C02 strict: {e}"));
+            other_errors += 1;
+        }
+    }
+    for w in &rep.warnings {
+        let kind = if w.contains("redundant ZIP64") { "redundant-zip64" } else if w.contains("duplicate") { "duplicate-zip64" } else if w.contains("version needed") { "zip64-version-needed-below-45" } else if w.contains("forced ZIP64") { "forced-marker" } else if w.contains("decoder consumed") { "decoder-slack" } else { "other" };
+        c02_count(&format!("strict.warning.{kind}"), 1);
+    }
+    if let Some(v) = &rep.view {
+        c02_count("strict.entries", v.entries.len() as u64);
+        if v.dead_bytes > 0 { c02_count("strict.archives-with-dead-bytes", 1); }
+        if v.zip64 { c02_count("strict.zip64-end-records", 1); }
+        if other_errors == 0 {
+            out.extend(c02_compare(v, ro, nbase, want_comment).into_iter().map(|m| format!("C02 strict: {m}")));
+            out.extend(c02_cpython(key, v, live));
+        }
+    }
+    if out.is_empty() { c02_count("strict.clean", 1); }
+    out.into_iter().map(|what| OracleFailure { what }).collect()
+}
+
+/// What the strict parser saw against what the calls wrote: count, order, names, methods, plaintext CRC and
+/// length of entries written through `write`, Unix mode, archive comment.
+fn c02_compare(v: &StrictView, ro: &RunOut, nbase: usize, want_comment: &[u8]) -> Vec<String> {
+    let mut out = vec![];
+    if v.comment != want_comment { out.push(format!("archive comment has {} bytes, the calls ask for {}", v.comment.len(), want_comment.len())); }
+    if v.entries.len() != nbase + ro.expect.len() {
+        out.push(format!("{} entries in the central directory, {} inherited + {} creations succeeded", v.entries.len(), nbase, ro.expect.len()));
+        return out;
+    }
+    for (k, (name, m, plain, mode)) in ro.expect.iter().enumerate() {
+        let e = &v.entries[nbase + k];
+        if &e.name != name { out.push(format!("entry {}: name has {} bytes, {} were given (or the bytes differ)", nbase + k, e.name.len(), name.len())); }
+        if e.method != *m { out.push(format!("entry {}: method {} recorded, {} requested", nbase + k, e.method, m)); }
+        if let Some(p) = plain {
+            if e.crc != crc32fast::hash(p) || e.uncompressed_size != p.len() as u64 {
+                out.push(format!("entry {}: crc/size {:08x}/{} recorded, the bytes written have {:08x}/{}", nbase + k, e.crc, e.uncompressed_size, crc32fast::hash(p), p.len()));
+            }
+        }
+        if let Some(md) = mode {
+            if e.version_made_by >> 8 != 3 || e.external_attrs >> 16 != *md { out.push(format!("entry {}: made-by {} / attributes {:o}, expected Unix / {:o}", nbase + k, e.version_made_by >> 8, e.external_attrs >> 16, md)); }
+        }
+    }
+    out
+}
+
+fn c02_cpython(key: &str, v: &StrictView, live: &[u8]) -> Vec<String> {
+    // the subset CPython's zipfile supports fully: stored / deflate / bzip2, no encryption
+    if v.entries.iter().any(|e| e.encrypted || !matches!(e.method, 0 | 8 | 12)) { c02_count("cpython.ineligible", 1); return vec![]; }
+    let sampled = match C02_MODE.load(Ordering::Relaxed) { 0 => true, 1 => fnv(key) % 16 == 0, _ => live.len() <= 65536 || fnv(key) % 16 == 0 };
+    if !sampled { return vec![]; }
+    let p = match cpython_view(live, v.entries.iter().any(|e| e.method == 12)) {
+        Some(p) => p,
+        None => { c02_count("cpython.skipped-no-python", 1); return vec![]; }
+    };
+    c02_count("cpython.checked", 1);
+    let mut want = format!("n={} comment={}", v.entries.len(), hex(&v.comment));
+    for e in &v.entries {
+        want += &format!(" {}:{}:{}:{}:{}:{}", e.header_offset, e.crc, e.compressed_size, e.uncompressed_size, e.method, hex(&e.name));
+    }
+    want += " test=None";
+    if p == want { return vec![]; }
+    // point at the first difference
+    let (pw, ww): (Vec<&str>, Vec<&str>) = (p.split(' ').collect(), want.split(' ').collect());
+    let i = pw.iter().zip(ww.iter()).position(|(a, b)| a != b).unwrap_or(pw.len().min(ww.len()));
+    let cut = |s: &str| if s.len() > 160 { format!("{}..", &s[..160]) } else { s.to_string() };
+    vec![format!("C02 cpython: zipfile reads the archive differently from the strict parser at field {i}: CPython `{}`, strict `{}`", cut(&pw[i.min(pw.len() - 1)..].join(" ")), cut(ww.get(i).copied().unwrap_or("")))]
 }
 
 // ---------------------------------------------------------------------------------------------
@@ -577,6 +1078,15 @@ fn oracle_append(calls: &[String], srcs: &[Vec<u8>]) -> Vec<OracleFailure> {
     // The writer cannot truncate its sink: when the rewritten directory + end records end before the old
     // end of file, stale bytes of the old archive (possibly its whole end record) follow the new one.
     let stale = ro.end_pos.map(|p| (bytes.len() as u64).saturating_sub(p)).unwrap_or(0);
+    // C02: the LIVE part (up to the sink position finish() left) must be a valid archive on its own; stale
+    // bytes behind it are D14's subject and are reported below under their own message
+    {
+        let live = &bytes[..(ro.end_pos.unwrap_or(bytes.len() as u64) as usize).min(bytes.len())];
+        let set_comment = calls.iter().any(|c| c.starts_with("c,"));
+        let want_comment = if set_comment { ro.comment.clone() } else { before.1.clone() };
+        let line_key = calls.join(";");
+        f.extend(c02_checks(&line_key, calls, srcs, &ro, live, before.0.len(), &want_comment));
+    }
     let after = match catch({ let bytes = bytes.clone(); move || listing(&bytes) }) {
         Ok(Ok(l)) => l,
         Ok(Err(e)) => {
